@@ -245,3 +245,104 @@ def lifecycle(rng, sid, table, variant):
     probe()
     s.digest()
     return s
+
+
+# ---- allowed commands really executed through the gate as a user with restrictive key patterns (C06 key coverage)
+KX_RULESETS = [["%R~a*", "%W~b*"], ["~a?"], ["%RW~z*", "%R~a*"], ["%W~b?", "%R~*"], ["~b*", "%R~z*"], ["%R~a*", "%W~b*", "%W~zz"]]
+KX_KEYS = ["a1", "a2", "a3", "a4", "a5", "b1", "b2", "b3", "b4", "b5", "zz", "z1", "z2", "n1", "bn"]
+
+def kx_preset(s):
+    from common import vstr, vlist, vset, vzset, vhash, vint
+    data = {"a1": vstr("v1"), "a2": vlist(["x", "y", "x"]), "a3": vset(["m1", "m2"]), "a4": vzset({"m1": "1/1", "m2": "2/1"}),
+            "a5": vhash({"f": vstr("v")}), "b1": vlist(["p", "q"]), "b2": vset(["m2", "m3"]), "b3": vzset({"m2": "3/1", "m4": "1/2"}),
+            "b4": vhash({"g": vint(4)}), "b5": vint(7), "zz": vset(["m1"]), "z1": vzset({"m1": "5/1"}), "z2": vlist(["e"])}
+    for k, v in data.items():
+        s.preset(0, k, v)
+    s.preset(1, "a1", vstr("other-db")); s.preset(1, "b1", vlist(["other-db"]))
+
+# templates: W = a key the command writes, R = a key it only reads, X = both (the gate checks it against both lists); the generator
+# fills them mostly with keys the user may use that way (so that most commands are allowed and many change something), otherwise
+# with any key (permitted / forbidden / absent keys and wrong types all occur)
+KX_CMDS = [
+    ["SET", "W", "v"], ["SET", "W", "v", "NX"], ["SET", "W", "v", "XX", "GET"], ["SET", "W", "v", "EX", "100"], ["MSET", "W", "1", "W", "2"],
+    ["GET", "R"], ["MGET", "R", "R"], ["DEL", "W", "W"], ["DEL", "W"], ["GETDEL", "X"], ["GETEX", "X", "PERSIST"], ["GETEX", "X", "EX", "50"],
+    ["EXPIRE", "W", "100"], ["PEXPIRE", "W", "5000", "NX"], ["EXPIREAT", "W", "1900000000"], ["PERSIST", "W"], ["TTL", "R"], ["TYPE", "R"],
+    ["INCR", "W"], ["DECR", "W"], ["INCRBY", "W", "5"], ["DECRBY", "W", "2"], ["INCRBYFLOAT", "W", "1.5"], ["RENAME", "W", "W"],
+    ["APPEND", "W", "x"], ["SETRANGE", "W", "1", "zz"], ["STRLEN", "R"], ["GETRANGE", "R", "0", "1"],
+    ["LPUSH", "W", "e"], ["RPUSH", "W", "e", "f"], ["LPUSHX", "W", "e"], ["LPOP", "W"], ["RPOP", "W"], ["LSET", "W", "0", "w"],
+    ["LTRIM", "W", "0", "0"], ["LREM", "W", "0", "x"], ["LMOVE", "W", "W", "LEFT", "RIGHT"], ["LRANGE", "R", "0", "-1"], ["LLEN", "R"],
+    ["HSET", "W", "f", "v"], ["HSETNX", "W", "f", "v"], ["HDEL", "W", "f"], ["HINCRBY", "W", "n", "2"], ["HGETALL", "R"], ["HGET", "R", "f"],
+    ["SADD", "W", "m9"], ["SREM", "W", "m1"], ["SMOVE", "W", "W", "m2"], ["SDIFFSTORE", "W", "R", "R"], ["SINTERSTORE", "W", "R", "R"],
+    ["SUNIONSTORE", "W", "R", "R"], ["SDIFF", "R", "R"], ["SINTER", "R", "R"], ["SUNION", "R", "R"], ["SINTERCARD", "R", "R", "LIMIT", "1"],
+    ["SINTERCARD", "R", "R"], ["SMEMBERS", "R"], ["SCARD", "R"],
+    ["ZADD", "W", "1", "m7"], ["ZADD", "W", "NX", "2", "m1"], ["ZREM", "W", "m1"], ["ZINCRBY", "W", "2", "m1"], ["ZPOPMIN", "W"], ["ZPOPMAX", "W", "1"],
+    ["ZREMRANGEBYRANK", "W", "0", "0"], ["ZREMRANGEBYSCORE", "W", "0", "1"], ["ZRANGESTORE", "W", "R", "0", "-1"], ["ZMPOP", "W", "W", "MIN"],
+    ["ZMPOP", "W", "MAX", "COUNT", "1"], ["ZUNIONSTORE", "W", "R", "R"], ["ZUNIONSTORE", "W", "R", "R", "WEIGHTS", "1", "2"],
+    ["ZINTERSTORE", "W", "R", "R", "AGGREGATE", "MAX"], ["ZINTERSTORE", "W", "R"], ["ZDIFFSTORE", "W", "R", "R"], ["ZDIFF", "R", "R", "WITHSCORES"],
+    ["ZUNION", "R", "R", "WITHSCORES"], ["ZINTER", "R", "R"], ["ZRANGE", "R", "0", "-1"], ["ZCARD", "R"], ["ZSCORE", "R", "m1"], ["ZRANK", "R", "m1"],
+]
+
+def kx_match(rules, prefixes, key):
+    import fnmatch
+    for r in rules:
+        for p in prefixes:
+            if r.upper().startswith(p) and fnmatch.fnmatchcase(key, r[len(p):]):
+                return True
+    return False
+
+KX_TYPES = {"a1": "str", "a2": "list", "a3": "set", "a4": "zset", "a5": "hash", "b1": "list", "b2": "set", "b3": "zset", "b4": "hash",
+            "b5": "str", "zz": "set", "z1": "zset", "z2": "list"}          # n1, bn: absent
+def kx_type(word):
+    w = word.upper()
+    if w in ("SET", "MSET", "SETRANGE", "STRLEN"): return "str"
+    if w[0] == "Z": return "zset"
+    if w[0] == "H": return "hash"
+    if w[0] == "L" or w in ("RPUSH", "RPOP"): return "list"
+    if w[0] == "S": return "set"
+    if w in ("GET", "MGET", "GETDEL", "GETEX", "INCR", "DECR", "INCRBY", "DECRBY", "INCRBYFLOAT", "APPEND", "GETRANGE"): return "str"
+    return None
+
+def kx_fill(rng, tmpl, pools, aimed):
+    """aimed: keys the user may use in that position, of the type the command expects (or absent)"""
+    t = kx_type(tmpl[0])
+    out = []
+    for a in tmpl:
+        if a in ("R", "W", "X"):
+            pool = [k for k in pools[a] if t is None or KX_TYPES.get(k, t) == t] if aimed else []
+            out.append(rng.choice(pool or KX_KEYS))
+        else:
+            out.append(a)
+    return out
+
+def keyed_exec(rng, n, length):
+    """user u1 = +@all with restrictive key patterns on connection 2; every command is executed through the gate with a data
+    digest before and after (the oracle of checks/C06.py checks that only keys matched by the write patterns changed)"""
+    out = []
+    for i in range(n):
+        rules = KX_RULESETS[i % len(KX_RULESETS)]
+        s = Script("kx%d" % i, base_cfg())
+        kx_preset(s)
+        N(s, 1); N(s, 2)
+        s.cmd(1, "AUTH", ROOT_PW)
+        s.cmd(1, "ACL", "SETUSER", "u1", "on", ">pw1", "+@all", *rules)
+        s.cmd(2, "AUTH", "u1", "pw1")
+        rd = [k for k in KX_KEYS if kx_match(rules, ("~", "%R~", "%RW~"), k)]
+        wr = [k for k in KX_KEYS if kx_match(rules, ("~", "%W~", "%RW~"), k)]
+        pools = {"R": rd, "W": wr, "X": [k for k in rd if k in wr]}
+        s.digest()
+        for _ in range(length):
+            s.cmd(2, *kx_fill(rng, rng.choice(KX_CMDS), pools, rng.random() < 0.7))
+            s.digest()
+        out.append(s)
+    return out
+
+def kx_flush_witness(word="FLUSHDB"):
+    """KF-C06-flush-keyless: u1 may write b* only; FLUSHDB / FLUSHALL report no key and empty the database"""
+    s = Script("kxflush_" + word.lower(), base_cfg())
+    kx_preset(s)
+    N(s, 1); N(s, 2)
+    s.cmd(1, "AUTH", ROOT_PW)
+    s.cmd(1, "ACL", "SETUSER", "u1", "on", ">pw1", "+@all", "%R~a*", "%W~b*")
+    s.cmd(2, "AUTH", "u1", "pw1")
+    s.digest(); s.cmd(2, word); s.digest()
+    return s
